@@ -787,6 +787,32 @@ def selftest(a):
     return 1 if missed else 0
 
 
+def replay_artefact(path):
+    """re-run one recorded case (out/C16/replay_*.json) on the current tree and print what happens"""
+    import numpy as np
+    import mystic.constraints as mc, mystic.tools as mt
+    art = json.load(open(path))
+    det = art["detail"]
+    if "record" not in det:
+        print("artefact %s is not a single case (%s)" % (path, art.get("key")))
+        return 2
+    d, xs = det["record"], det["input"]
+    S = 2
+    exp = det.get("expected(spec units 1/%d)" % S)
+    bad = 0
+    for kind in ("list", "array"):
+        try:
+            out = as_floats(build(mc, mt, d, S, kind)(make_input(xs, kind, np)))
+            probs = [p for p, _ in judge(exp, xs, out, S)]
+        except Exception as ex:
+            out, probs = repr(ex), ["raises-" + type(ex).__name__]
+        print("%s on %s as %s -> %s   spec: %s   %s" % (describe(d, S), xs, kind, out, json.dumps(exp)[:200], probs or "agrees (values)"))
+        bad += bool(probs)
+    if bad:
+        print("VIOLATION property=C16 replay=%s" % path)
+    return 1 if bad else 0
+
+
 def main():
     fixes = "--with-proposed-fixes" in sys.argv
     if fixes:
@@ -798,6 +824,8 @@ def main():
     FLAGS["fixes"] = fixes
     if a.selftest:
         return selftest(a)
+    if a.replay:
+        return replay_artefact(a.replay)
     ck = new_check(a)
     run_all(ck, a, jobs_for(a.tier))
     return ck.finish()
